@@ -46,6 +46,9 @@ type clusterCase struct {
 	FreshGap      int             `json:"fresh_checkpoint_gap,omitempty"`
 	// GapsMS, if set, are the pauses before each edge is dialled
 	GapsMS []int `json:"gaps_ms,omitempty"`
+	// mined: blocks node Winner "mines" one after the other from its own pool
+	// during the run (the cluster must converge to the last one)
+	mined []*chainlab.Node
 	// pre: branches a node validated and stored before its own (heavier) branch
 	pre map[int][]*chainlab.Node
 	// MaxOut overrides the outbound cap (0 = same as peer_cap)
@@ -95,7 +98,7 @@ func runC12(r *mon.Run, replay string) {
 	}
 
 	base := r.Pick(40, 600)
-	n := base + r.Pick(8, 120) // appended: alternately "capsync" and "cpahead" clusters
+	n := base + r.Pick(12, 180) // appended: "capsync", "cpahead" and "poolrelay" clusters in turn
 	c12Base.Store(int64(base))
 	workers := r.Pick(12, 12)
 	parallel(n, workers, func(i int) {
@@ -111,6 +114,7 @@ func runC12(r *mon.Run, replay string) {
 	}
 	r.Floor("clusters_converged", int64(n*8/10))
 	r.Floor("clusters_with_capped_servers_and_more_than_100_blocks", int64(r.Pick(4, 50)))
+	r.Floor("outline_blocks_relayed_with_missing_v1_transactions", int64(r.Pick(6, 100)))
 	r.Floor("clusters_with_checkpoint_node_ahead_of_a_forked_genesis_node", int64(r.Pick(4, 50)))
 	r.Floor("manager_calls_audited:AddBlocks", 20)
 	r.Floor("manager_calls_audited:AddValidatedV2Blocks", 5)
@@ -175,10 +179,13 @@ var c12Base atomic.Int64
 
 func c12SpecialFor(i int) string {
 	if b := int(c12Base.Load()); b > 0 && i >= b {
-		if (i-b)%2 == 0 {
+		switch (i - b) % 3 {
+		case 0:
 			return "capsync" // servers with MaxSendBlocks caps that do not divide 100, more than 100 blocks to sync
+		case 1:
+			return "cpahead" // a checkpoint-bootstrapped node ahead of a genesis node on a lighter fork branching just above the checkpoint
 		}
-		return "cpahead" // a checkpoint-bootstrapped node ahead of a genesis node on a lighter fork branching just above the checkpoint
+		return "poolrelay" // blocks mined from one node's pool (v1 and v2 transactions) inside the transition window, relayed as outlines that omit them
 	}
 	switch i % 10 {
 	case 1: // sync distance larger than one header batch (honest lab peer serving short SendHeaders batches)
@@ -640,7 +647,127 @@ func genCheckpointAhead(r *mon.Run, stream uint64) (clusterCase, *chainlab.Tree,
 	return cc, t, tips, cps
 }
 
+// genPoolRelay: all nodes share a tip inside the v2 transition window (allow <=
+// height < require). One node gets v1 and v2 transactions into ITS pool only,
+// "mines" v2-format blocks that confirm them and announces each block with an
+// outline that omits the pooled transactions, so every receiver has to fetch
+// them (v1 ones included) with SendTransactions.
+func genPoolRelay(r *mon.Run, stream uint64) (clusterCase, *chainlab.Tree, []*chainlab.Node, []*chainlab.Node) {
+	rng := r.RNG(stream)
+	p := chainlab.RandomParams("mix", rng)
+	p.Allow = uint64(3 + rng.IntN(4))
+	p.Require = p.Allow + uint64(14+rng.IntN(8))
+	p.FinalCut = p.Require + 2
+	env := chainlab.NewEnv(p)
+	itarget := []byte{0x08, 0x10, 0x40, 0xFF}[rng.IntN(4)]
+	env.Net.InitialTarget = types.BlockID{itarget}
+	t := chainlab.NewTree(env, rng)
+	prof := chainlab.Profile{MaxTxns: 3}
+	cc := clusterCase{Stream: stream, Regime: "mix-transition-window", Params: p, Special: "poolrelay", InitialTarget: itarget, Cap: 8}
+	cc.TrunkLen = int(p.Allow) + rng.IntN(4)
+	tip := p2plab.GrowMixed(t, t.Root, cc.TrunkLen, 2, prof)
+	x := tip
+	for k := 3 + rng.IntN(3); k > 0; k-- {
+		var next *chainlab.Node
+		for try := 0; try < 60 && next == nil; try++ {
+			c := t.Extend(x, chainlab.Profile{MaxTxns: 6})
+			if c.ChainValid && c.Block.V2 != nil && len(c.Block.Transactions) > 0 {
+				next = c
+			}
+		}
+		if next == nil {
+			break
+		}
+		cc.mined = append(cc.mined, next)
+		x = next
+	}
+	if len(cc.mined) < 2 || x.Height >= p.Require {
+		cc.N = 0
+		return cc, t, nil, nil
+	}
+	cc.N = 2 + rng.IntN(3)
+	cc.Winner = rng.IntN(cc.N)
+	tips := make([]*chainlab.Node, cc.N)
+	for i := range tips {
+		tips[i] = tip
+	}
+	cc.Topology = []string{"line", "star", "complete"}[rng.IntN(3)]
+	order := rng.Perm(cc.N)
+	switch cc.Topology {
+	case "line":
+		for i := 0; i+1 < cc.N; i++ {
+			cc.Edges = append(cc.Edges, [2]int{order[i], order[i+1]})
+		}
+	case "star":
+		for i := 1; i < cc.N; i++ {
+			cc.Edges = append(cc.Edges, [2]int{order[0], order[i]})
+		}
+	default:
+		for i := 0; i < cc.N; i++ {
+			for j := i + 1; j < cc.N; j++ {
+				cc.Edges = append(cc.Edges, [2]int{order[i], order[j]})
+			}
+		}
+	}
+	for i := range cc.Edges {
+		if rng.IntN(2) == 0 {
+			cc.Edges[i] = [2]int{cc.Edges[i][1], cc.Edges[i][0]}
+		}
+	}
+	for i, n := range tips {
+		cc.Branches = append(cc.Branches, branchDesc{Node: i, ForkHeight: n.Height, TipHeight: n.Height, TipNode: n.Idx, Checkpoint: -1, MaxSend: 100})
+	}
+	return cc, t, tips, make([]*chainlab.Node, cc.N)
+}
+
+// minePoolBlock puts the block's transactions into the miner's pool (v1 and
+// v2, as sets, falling back to one by one), adds the block to the miner's
+// chain and announces it with an outline that omits whatever was pooled.
+// It returns how many v1 / v2 transactions the outline omitted.
+func minePoolBlock(m *p2plab.Node, nd *chainlab.Node) (v1Missing, v2Missing int, err error) {
+	blk := nd.Block
+	if _, e := m.CM.AddPoolTransactions(blk.Transactions); e != nil {
+		for _, txn := range blk.Transactions {
+			m.CM.AddPoolTransactions([]types.Transaction{txn})
+		}
+	}
+	basis := nd.Parent.L.State.Index
+	if v2 := blk.V2Transactions(); len(v2) > 0 {
+		if _, e := m.CM.AddV2PoolTransactions(basis, v2); e != nil {
+			for _, txn := range v2 {
+				m.CM.AddV2PoolTransactions(basis, []types.V2Transaction{txn})
+			}
+		}
+	}
+	pool, pool2 := m.CM.PoolTransactions(), m.CM.V2PoolTransactions()
+	if err := m.ACM.AddBlocks([]types.Block{blk}); err != nil {
+		return 0, 0, err
+	}
+	o := gateway.OutlineBlock(blk, pool, pool2)
+	for _, ot := range o.Transactions {
+		if ot.Transaction != nil || ot.V2Transaction != nil {
+			continue
+		}
+		isV1 := false
+		for i := range blk.Transactions {
+			if blk.Transactions[i].MerkleLeafHash() == ot.Hash {
+				isV1 = true
+			}
+		}
+		if isV1 {
+			v1Missing++
+		} else {
+			v2Missing++
+		}
+	}
+	m.S.BroadcastV2BlockOutline(o)
+	return v1Missing, v2Missing, nil
+}
+
 func genCluster(r *mon.Run, stream uint64, special string) (clusterCase, *chainlab.Tree, []*chainlab.Node, []*chainlab.Node) {
+	if special == "poolrelay" {
+		return genPoolRelay(r, stream)
+	}
 	if special == "capsync" {
 		return genCapSync(r, stream)
 	}
@@ -911,7 +1038,10 @@ func runCluster(r *mon.Run, stream uint64, special string) {
 		}
 	}
 	winner := tips[cc.Winner]
-	nontrivial := false
+	if len(cc.mined) > 0 {
+		winner = cc.mined[len(cc.mined)-1]
+	}
+	nontrivial := len(cc.mined) > 0
 	for i, x := range tips {
 		if i != cc.Winner && x != winner {
 			nontrivial = true
@@ -995,6 +1125,37 @@ func runCluster(r *mon.Run, stream uint64, special string) {
 		if len(dropped) > 0 && honestBanClass(nodes) == "" {
 			fmt.Printf("note: C12 stream=%d accepted-connection-dropped-within-caps %v\n", stream, dropped)
 			r.Violation("accepted-connection-dropped-within-caps", "a connection whose Connect() succeeded and that is within both endpoints' configured inbound/outbound caps was no longer present in both peer lists after the settle period", cc, map[string]any{"dropped_edges": dropped, "edges": cc.Edges})
+		}
+	}
+	if len(cc.mined) > 0 {
+		// the miner works through its blocks; receivers get a moment per block
+		m := nodes[cc.Winner]
+		for _, nd := range cc.mined {
+			v1m, v2m, err := minePoolBlock(m, nd)
+			if err != nil {
+				r.Inconclusive(fmt.Sprintf("C12 case %d: the miner rejected its own valid block: %v", stream, err))
+				break
+			}
+			r.Count("outline_blocks_relayed", 1)
+			if v1m > 0 {
+				r.Count("outline_blocks_relayed_with_missing_v1_transactions", 1)
+			}
+			if v2m > 0 {
+				r.Count("outline_blocks_relayed_with_missing_v2_transactions", 1)
+			}
+			for i := 0; i < 12; i++ {
+				time.Sleep(25 * time.Millisecond)
+				all := true
+				for _, n := range nodes {
+					if n.CM.Tip().ID != nd.ID {
+						all = false
+					}
+				}
+				if all {
+					r.Count("outline_blocks_adopted_by_all_within_300ms", 1)
+					break
+				}
+			}
 		}
 	}
 	start := time.Now()
@@ -1212,6 +1373,8 @@ func runCluster(r *mon.Run, stream uint64, special string) {
 			vsig += ":heaviest-chain-is-shorter"
 		} else if len(lostEdges) > 0 {
 			vsig += ":honest-peer-disconnected"
+		} else if cc.Special == "poolrelay" {
+			vsig += ":pool-mined-blocks-in-transition-window"
 		} else if cc.Special == "capsync" {
 			vsig += ":capped-servers"
 		} else if cc.Special == "cpahead" {
@@ -1240,6 +1403,12 @@ func runCluster(r *mon.Run, stream uint64, special string) {
 	if len(lostEdges) > 0 && honestBanClass(nodes) == "" {
 		fmt.Printf("note: C12 stream=%d honest-peer-disconnected %v\n", stream, lostEdges)
 		r.Violation("honest-peer-disconnected", "in an all-honest cluster an established connection was dropped by one of the nodes (nobody re-dials in this cluster shape)", cc, map[string]any{"lost_edges": lostEdges, "nodes": getReps(), "tree": summarize(t)})
+	}
+	if cc.Special == "poolrelay" {
+		r.Count("clusters_with_blocks_mined_from_one_pool_in_the_transition_window", 1)
+		if converged {
+			r.Count("clusters_with_pool_mined_blocks_converged", 1)
+		}
 	}
 	if cc.Special == "capsync" {
 		r.Count("clusters_with_capped_servers_and_more_than_100_blocks", 1)
